@@ -101,7 +101,11 @@ class PromiseType final : public PromiseTypeBase<V, E, Lazy, Shared> {
     return this->Add(1);
   }
   std::size_t GetRef() noexcept final {
-    return this->Get();
+    if constexpr (Shared) {
+      return this->Get(std::memory_order_acquire);  // see Helper::GetRef
+    } else {
+      return this->Get();
+    }
   }
   void DecRef() noexcept final {
     this->Sub(1);
